@@ -1302,7 +1302,7 @@ func init() {
 			// process-wide channel, so many goroutines hashing transactions in
 			// one process contend on it: several small children instead.
 			{Name: "tx", Shards: 8, N: func(t vf.Tier) int { return t.Sz(200000, 2000000) }, Run: c10txCase},
-			{Name: "block", Shards: 8, N: func(t vf.Tier) int { return t.Sz(6000, 100000) }, Run: c10blockCase},
+			{Name: "block", Shards: 8, N: func(t vf.Tier) int { return t.Sz(12000, 100000) }, Run: c10blockCase},
 		},
 	})
 }
